@@ -307,7 +307,11 @@ pub(super) fn execute_remove_labels<S: GraphSnapshot>(
         for (var, labels) in items {
             if let Some(node_id) = row.get_node(var) {
                 for label in labels {
-                    if let Some(label_id) = snapshot.resolve_label_id(label) {
+                    // A label the statement itself introduced is not in the snapshot.
+                    let label_id = snapshot
+                        .resolve_label_id(label)
+                        .or_else(|| txn.known_label_id(label));
+                    if let Some(label_id) = label_id {
                         txn.remove_node_label(node_id, label_id)?;
                         count += 1;
                     }
